@@ -161,7 +161,7 @@ pub fn step(rep: &mut Report, file: &[u8], junk: usize, edit: &Edit, history: &[
             Ok(r) => {
                 let mut full = file[..junk].to_vec();
                 full.extend_from_slice(&after);
-                (r.map_err(|e| format!("{e:?}")), full, None)
+                (r.map_err(|e| crate::api::show(&e)), full, None)
             }
         }
     } else {
@@ -181,7 +181,7 @@ pub fn step(rep: &mut Report, file: &[u8], junk: usize, edit: &Edit, history: &[
                 rep.violation("panic", p.signature(), format!("update_file({edit:?}): {} at {}", p.msg, p.location), replay());
                 return None;
             }
-            Ok(r) => (r.map_err(|e| format!("{e:?}")), orig.data, Some(rb.data)),
+            Ok(r) => (r.map_err(|e| crate::api::show(&e)), orig.data, Some(rb.data)),
         }
     };
     match result {
@@ -253,7 +253,7 @@ pub fn step(rep: &mut Report, file: &[u8], junk: usize, edit: &Edit, history: &[
                         }
                     }
                     Err(e) => {
-                        rep.violation("edit-lost", "in-place-result-unreadable", format!("{e:?}"), replay());
+                        rep.violation("edit-lost", "in-place-result-unreadable", crate::api::show(&e), replay());
                         return None;
                     }
                 }
